@@ -171,6 +171,7 @@ def check_C09(ctx, tier):
     K.rule_K_DISPATCH(ctx, ctx.repo)
     K.rule_K_OWN(ctx, ctx.repo)
     G.rule_G(ctx, ctx.repo, want=('G-VAL', 'G-PREC'))
+    G.rule_SIG(ctx, ctx.repo)                      # positional values are filed under the names of the callable that is actually bound
     for d, paths in _wrappers(ctx, tier):
         W.setup_abbrev(d)
         W.rule_W_KEY(ctx, d, paths)
@@ -207,6 +208,7 @@ def check_C17(ctx, tier):
 def check_C11(ctx, tier):
     G.rule_G_FORMS(ctx, ctx.repo)
     G.rule_G_FIELDS(ctx, ctx.repo)
+    G.rule_SIG(ctx, ctx.repo)
     G.rule_G(ctx, ctx.repo, want=('G-VAL',))       # everything that is not ignored still reaches the key
     K.rule_K_OWN(ctx, ctx.repo)                    # the decomposition of the ignore spec does not depend on earlier calls (module-level state)
     K.rule_K_REPR(ctx, ctx.repo)                   # the substitute NULL has a constant repr
@@ -226,6 +228,7 @@ def check_C11(ctx, tier):
 
 def check_C19(ctx, tier):
     G.rule_V(ctx, ctx.repo)
+    G.rule_SIG(ctx, ctx.repo)
     K.rule_K_OWN(ctx, ctx.repo)                    # signature() is free of cross-call state (a memoised argspec mutated in place changes later verdicts)
     ctx.assume("agreement of validate's individual binding checks with the interpreter (counting, partial bookkeeping) is value-level and not decided")
     return ('Necessary conditions for "validate/isvalid agree with Python\'s binding without calling the function": every rejection is a TypeError; '
